@@ -357,7 +357,7 @@ def java_bundle(config):
             shutil.rmtree(tmp, ignore_errors=True)
         if not os.path.exists(os.path.join(d, 'xraylib.dat')):
             raise BuildError('pr_data_java did not produce xraylib.dat')
-        srcs = sorted(glob.glob(os.path.join(REPO, 'java', '*.java'))) + [os.path.join(jsrc, 'JMon.java'), os.path.join(jsrc, 'JConst.java'),
+        srcs = sorted(glob.glob(os.path.join(REPO, 'java', '*.java'))) + [os.path.join(jsrc, 'JMon.java'), os.path.join(jsrc, 'JConst.java'), os.path.join(jsrc, 'com', 'github', 'tschoonj', 'xraylib', 'XvCrystals.java'),
                os.path.join(jsrc, 'org', 'apache', 'commons', 'math3', 'complex', 'Complex.java')]
         _run(['javac', '-encoding', 'UTF-8', '-nowarn', '-d', d] + srcs)
     hh = hashlib.sha256()
